@@ -2,6 +2,7 @@ import SkgVerif.Model.Propagate
 import SkgVerif.Lemmas.Edges
 import SkgVerif.Lemmas.Median
 import SkgVerif.Gen.Source
+import SkgVerif.Props.Transcribed.C19
 /-!
 # C19 — uncertainty propagation: ordered, reproducible bounds; source left untouched
 -/
